@@ -6,6 +6,7 @@
 use std::hint::black_box;
 use std::iter;
 use std::num::NonZero;
+use std::panic::{AssertUnwindSafe, catch_unwind, resume_unwind};
 use std::sync::{Arc, Barrier, Mutex};
 use std::time::{Duration, Instant};
 
@@ -117,18 +118,30 @@ where
 
                 let meta = RunMeta::new(group_index, group_count, thread_count, iterations);
 
-                let thread_state = prepare_thread_fn(args::PrepareThread::new(&meta));
+                // If the preparation panics on this thread, we must still reach the barrier:
+                // the other threads are waiting for us there and the caller is waiting for all
+                // of them, so unwinding right away would leave them blocked forever.
+                let prepared = catch_unwind(AssertUnwindSafe(|| {
+                    let thread_state = prepare_thread_fn(args::PrepareThread::new(&meta));
 
-                let iterations_usize = usize::try_from(iterations)
-                    .expect("iteration count that exceeds virtual memory size is impossible to execute as state would not fit in memory");
+                    let iterations_usize = usize::try_from(iterations)
+                        .expect("iteration count that exceeds virtual memory size is impossible to execute as state would not fit in memory");
 
-                let iter_state = iter::repeat_with(|| {
-                    prepare_iter_fn(args::PrepareIter::new(&meta, &thread_state))
-                }).take(iterations_usize).collect::<Vec<_>>();
+                    let iter_state = iter::repeat_with(|| {
+                        prepare_iter_fn(args::PrepareIter::new(&meta, &thread_state))
+                    }).take(iterations_usize).collect::<Vec<_>>();
 
-                let mut cleanup_state = Vec::with_capacity(iterations_usize);
+                    let cleanup_state = Vec::with_capacity(iterations_usize);
+
+                    (thread_state, iter_state, cleanup_state)
+                }));
 
                 start.wait();
+
+                let (thread_state, iter_state, mut cleanup_state) = match prepared {
+                    Ok(prepared) => prepared,
+                    Err(payload) => resume_unwind(payload),
+                };
 
                 let measure_state = measure_wrapper_begin_fn(args::MeasureWrapperBegin::new(&meta, &thread_state));
 
